@@ -8,6 +8,9 @@
 (*   e  '='                    b  backslash       x  '#'                        *)
 (*   u  a UTF-8 multibyte      t  tab (a control character)                     *)
 (*   G  a lone byte >= 0x80 (not valid UTF-8)                                   *)
+(*   p  any other printable ASCII punctuation (' % : , ( ) [ ] { } + - . * ? @   *)
+(*      ~ & ; < > | $ ! ^ ` /): the scanners give none of them a meaning; the    *)
+(*      harness writes a different one on every line                             *)
 (*   D  two upper-case hex digits that are not decimal ("DE")                   *)
 (*   N  two decimal digits ("12")                                                *)
 (*   name / comm / profile / info / pid / ...  the key word spelled out         *)
@@ -26,13 +29,16 @@
 (*   HexField   util.DecodeHexField for values that could not be decoded in     *)
 (*              the line because they hold a quote                              *)
 (*   Unquote    one pair of quotes of a quoted value                            *)
+(* A journald carrier (MESSAGE as a JSON string, or as an array of bytes when  *)
+(* the line is not printable UTF-8) hands the same bytes to these stages: the   *)
+(* harness sends every third line through each carrier.                          *)
 (* The design-level theorem is  DecodeLine(EncRec(r)) = Expected(r)  for every  *)
 (* record r of the contract; TLC checks it for every value up to the bound and  *)
 (* hands each (record, line) to the harness, which concretises the line, runs   *)
 (* the REAL logs.New on it and has LogLineTrace compare the three.              *)
 EXTENDS Naturals, Sequences, FiniteSets, TLC
 
-Chars   == {"a", "s", "q", "e", "b", "x", "u", "t", "G", "D", "N", "name", "pid"}
+Chars   == {"a", "s", "q", "e", "b", "x", "u", "t", "G", "D", "N", "p", "name", "pid"}
 HexKeys == {"name", "comm", "profile"}
 Ctl     == {"s", "q", "u", "t", "G"}                       \* what makes the kernel write hex
 Hx(c)   == IF c = "G" THEN "D" ELSE "%" \o c
